@@ -273,9 +273,12 @@ def run(case):
                   if not o.startswith(('pack', 'reopen'))]
             tb = [o for o in twin.outcomes[len(case['ops']):]
                   if not o.startswith(('pack', 'reopen'))]
-            if ta != tb:
+            if ta != tb or len(set(d.commit_log)) != len(d.commit_log):
                 # e.g. the tail undoes a transaction the pack has packed
-                # (refused by design): final states legitimately differ
+                # (refused by design): final states legitimately differ;
+                # or (stalled clock) a tail transaction got the id of a
+                # transaction the pack removed as garbage, so that the
+                # tail's undo targets name different transactions
                 stats['twin_diverged'] = stats.get('twin_diverged', 0) + 1
             elif info is not None and info.get('raised') is None \
                     and not d.viol:
